@@ -54,7 +54,7 @@ def _long_text(rng, stream=False):
     if stream and rng.random() < 0.4:
         # a log: many numbered lines (more than any sampling window a comparator might use), over the stream length
         # limit (only for streams: nbdime compares texts character-wise, which is quadratic in 10k-character bundles)
-        n = rng.randint(33, 70)
+        n = rng.randint(33, 48)
         return "".join("%-24s log #%d\n" % (rng.choice(VOCAB).strip("\r\n\0")[:24], i) for i in range(n))
     pre = LONG_STREAM_PREFIX if stream else LONG_PREFIX
     return pre + "".join(rng.choice(VOCAB) for _ in range(rng.randint(0, 3)))
